@@ -23,6 +23,31 @@ func genC02(g *Gen, tier string) *Program {
 		wDerive: 2, wGauge: 3, wUpd: 9, wClose: 2, wSleep: 1, wYield: 1, wCounter: 1, wInc: 1,
 		reacquire: 80, closer: 35, ownGauge: true,
 	})
+	if g.Bool(30) {
+		// bystanders: tasks that ask for a gauge of another task at the same time
+		// (concurrent first use) but never update it - the gauge keeps its single
+		// updating goroutine, and whatever handle that goroutine was given must be
+		// the one the report passes visit
+		nt := len(p.Tasks)
+		for ti := 0; ti < nt && len(p.Tasks) < 5; ti++ {
+			var by []Op
+			for _, op := range p.Tasks[ti] {
+				if op.K == "sub" || op.K == "tag" {
+					by = append(by, op)
+				}
+				if op.K == "gauge" {
+					by = append(by, op)
+					break
+				}
+			}
+			if len(by) > 0 && by[len(by)-1].K == "gauge" && g.Bool(60) {
+				for k := g.Intn(3); k > 0; k-- {
+					by = append([]Op{{K: "yield"}}, by...)
+				}
+				p.Tasks = append(p.Tasks, by)
+			}
+		}
+	}
 	settleEpilogue(g, p)
 	return p
 }
